@@ -526,8 +526,8 @@ Section Oracles.
 
   (* ---------------------------------------------------------------- value_to_literal *)
 
-  (* _re_integer_string.match(s) (optional minus, 0 or digits without leading zero, then the end
-     anchor): the end anchor also matches before a final LF *)
+  (* _re_integer_string.match(s) (optional minus, 0 or digits without leading zero, then \Z, the
+     end of the string - not before a final LF; /repo commit c102a9f) *)
   Fixpoint all_digits (s : text) : bool :=
     match s with
     | [] => true
@@ -542,17 +542,10 @@ Section Oracles.
     | _ => all_digits s
     end.
 
-  Definition strip_final_lf (s : text) : text :=
-    match rev s with
-    | 10 :: r => rev r
-    | _ => s
-    end.
-
   Definition is_integer_string (s : text) : bool :=
-    let s' := strip_final_lf s in
-    match s' with
+    match s with
     | 45 :: r => int_body r
-    | _ => int_body s'
+    | _ => int_body s
     end.
 
   (* default_scalar_value_to_literal restricted to what the built-in scalars keep *)
